@@ -141,8 +141,8 @@ func run(t *core.Tape, st *core.Stats) *core.Violation {
 		return nil
 	}
 
-	twin, _, _ := build()  // for preparing payloads
-	solo, _, _ := build()  // for the sequential control run
+	twin, _, _ := build() // for preparing payloads
+	solo, _, _ := build() // for the sequential control run
 
 	// tasks and their private operations
 	cfg := sched.Config{Tasks: t.Range(2, 4), MaxSteps: 20000}
@@ -281,7 +281,6 @@ func run(t *core.Tape, st *core.Stats) *core.Violation {
 
 	jsonapi.SimMapOrder = nil
 
-
 	st.Steps += int64(ss.Steps)
 	st.MOApplied += ss.MapApplied
 	st.MONonIdent += ss.MapNonIdentity
@@ -297,6 +296,10 @@ func run(t *core.Tape, st *core.Stats) *core.Violation {
 		for _, o := range tasks[i] {
 			st.Inc("op:" + o.kind)
 			st.Inc("probe:op-" + o.kind)
+
+			if strings.Contains(o.desc, "large page") {
+				st.Inc("probe:marshal-of-a-large-page")
+			}
 		}
 
 		if switchedInRels[i] {
